@@ -452,4 +452,98 @@ def persist (s : St) : Image :=
     locked := s.locked.map (fun (es, ps) => (es.map (fun e => (e + (off : Int)).toNat), ps)),
     cstep := s.cstep, trajNum := s.trajNum, frac := s.frac, rngDraws := s.mainDraws, seed := s.seed }
 
+/-! ### the scheduler loop (scheduler.py) over explicit outcomes -/
+
+/-- the sampler together with the jobs in flight (the futures list) -/
+structure Sys where
+  s : St
+  jobs : List Job
+deriving Repr, DecidableEq
+
+/-- one iteration of one of the two `while` loops of `scheduler()`, with the random / MD outcomes
+    it consumes made explicit -/
+inductive Ev
+  /-- `while state.initiate():` body — prep a fresh `md_items` and submit it -/
+  | start (o : PickOutcome) (savedDraws : Nat := 0)
+  /-- `while state.loop():` body — the `k`-th job in flight completes (any `k`: the schedule),
+      with `status` and, for ACC, the new weight vectors; then, iff
+      `cstep + workers ≤ tsteps`, the same worker is given a new job drawn with outcome `o` -/
+  | step (k : Nat) (status : Status) (newW : List (List Rat)) (o : PickOutcome)
+deriving Repr
+
+/-- fuel given to `sort_trajstate` by the scheduler model: n² + 4 iterations -/
+def sortFuel (s : St) : Nat := s.n * s.n + 4
+
+def sysStep (y : Sys) : Ev → Except Err Sys
+  | .start o saved =>
+    let (s1, go) := initiate y.s
+    if ¬ go then .error .value else       -- the loop body does not run
+    match prep s1 none o saved with
+    | .error er => .error er
+    | .ok (s2, job, _) => .ok { s := s2, jobs := y.jobs ++ [job] }
+  | .step k status newW o =>
+    let (s1, go) := loop y.s
+    if ¬ go then .error .value else
+    match y.jobs[k]? with
+    | none => .error .index               -- as_completed() found nothing: not a scheduler state
+    | some job =>
+      match treatOutput s1 job status newW (sortFuel s1) with
+      | .error er => .error er
+      | .ok (s2, _, _) =>
+        let rest := y.jobs.eraseIdx k
+        if s2.cstep + s2.workers ≤ s2.tsteps then
+          match prep s2 (some job.pin) o with
+          | .error er => .error er
+          | .ok (s3, job', _) => .ok { s := s3, jobs := rest ++ [job'] }
+        else .ok { s := s2, jobs := rest }
+
+def run (y : Sys) : List Ev → Except Err Sys
+  | [] => .ok y
+  | ev :: rest =>
+    match sysStep y ev with
+    | .error er => .error er
+    | .ok y' => run y' rest
+
+/-- `REPEX_state.__init__` + `load_paths` on `n − 1` initial paths with path numbers
+    `active` (slot order) and un-padded weight vectors `ws`; plus paths first (slots 1…), then the
+    minus path (slot 0), as `load_paths` does.  `fr` = fractions restored from the restart file. -/
+def blank (n workers tsteps cstep trajNum seed : Nat) (occ : List (List Int)) (ensEng : List (List Nat))
+    (restarted : Bool) (locked0 : List (List Nat × List Nat)) : St :=
+  { n := n, W := List.replicate n (List.replicate n 0), trajs := List.replicate n none,
+    locks := List.replicate n true, locked := [], locked0 := locked0, toinitiate := (workers : Int),
+    workers := workers, cworker := 0, cstep := cstep, tsteps := tsteps, trajNum := trajNum,
+    frac := [], wts := [], rows := [], occ := occ, ensEng := ensEng, seed := seed,
+    entropy := if restarted then 0 else seed, spawned := if restarted then cstep else 0,
+    mainDraws := 0, restarted := restarted }
+
+/-- load one path as `load_paths` does: add_traj(count=False) then the traj_data entry -/
+def loadOne (s : St) (ens : Int) (pn : Nat) (valid : List Rat) (fr : List Rat) : Except Err St :=
+  match addTraj s ens pn valid with
+  | .error er => .error er
+  | .ok s1 => .ok { s1 with frac := s1.frac ++ [(pn, fr)], wts := s1.wts ++ [(pn, valid)] }
+
+/-- `load_paths(paths)`: `paths[i+1]` into ensemble `i` for `i = 0 … n−3`, then `paths[0]` into -1 -/
+def loadPaths (s : St) (paths : List (Nat × List Rat × List Rat)) : Except Err St :=
+  let rec plus (s : St) (i : Nat) : List (Nat × List Rat × List Rat) → Except Err St
+    | [] => .ok s
+    | (pn, w, fr) :: rest =>
+      match loadOne s (i : Int) pn w fr with
+      | .error er => .error er
+      | .ok s1 => plus s1 (i + 1) rest
+  match paths with
+  | [] => .error .index
+  | (pn0, w0, fr0) :: rest =>
+    match plus s 0 rest with
+    | .error er => .error er
+    | .ok s1 => loadOne s1 (-1) pn0 w0 fr0
+
+/-- restart: what `setup_config` (restart branch) + `REPEX_state.__init__` + `load_paths` rebuild
+    from an image; `weightOf pn` = the weight vector recomputed from the stored path `pn`. -/
+def restore (im : Image) (n workers tsteps : Nat) (occ : List (List Int)) (ensEng : List (List Nat))
+    (weightOf : Nat → List Rat) : Except Err St :=
+  let s0 := blank n workers tsteps im.cstep im.trajNum im.seed occ ensEng true im.locked
+  let paths := im.active.filterMap (fun o => o.map (fun pn =>
+    (pn, weightOf pn, (im.frac.lookup pn).getD (List.replicate n 0))))
+  loadPaths s0 paths
+
 end Infretis.Repex
